@@ -8,7 +8,7 @@
 //! tables before/after.
 
 use crate::framework::{CaseReport, Check, Ctx, Tier};
-use crate::props::enginekit::{EvSpec, Link, ReqSpec, Resolver, Rig, cid_of, is_refused, strat};
+use crate::props::enginekit::{EvSpec, Link, ReqSpec, Resolver, Rig, is_refused, strat};
 use crate::props::world::{InstrumentDef, simple_world};
 use barter::{
     EngineEvent,
@@ -131,7 +131,10 @@ impl Check for RequestDelivery {
             }
             let event = resolver.resolve(&st.event);
             let algo_cancels: Vec<OrderRequestCancel> = st.algo_cancels.iter().map(|r| resolver.cancel_request(r)).collect();
-            let algo_opens: Vec<OrderRequestOpen> = st.algo_opens.iter().map(|r| resolver.open_request(r)).collect();
+            let mut algo_opens: Vec<OrderRequestOpen> = Vec::new();
+            for r in &st.algo_opens {
+                algo_opens.push(resolver.open_request(r));
+            }
             unknown_ex += st.algo_cancels.iter().chain(&st.algo_opens).filter(|r| r.unknown_exchange).count() as u32;
             {
                 let mut log = rig.engine.strategy.log.lock().unwrap();
@@ -315,14 +318,15 @@ impl Check for RequestDelivery {
             }
 
             // ---- in-flight marks ------------------------------------------------------------------
-            let touched_by_event = |inst: InstrumentIndex, cid: &ClientOrderId| -> bool {
-                match &st.event {
-                    EvSpec::OrderOpen { cid: c, inst: i, .. } | EvSpec::OrderInactive { cid: c, inst: i, .. } | EvSpec::CancelResp { cid: c, inst: i, .. } => {
-                        resolver.inst(*i) == inst && crate::props::enginekit::cid_name(*c, false) == *cid
-                    }
-                    _ => false,
-                }
+            let reported: Option<(InstrumentIndex, ClientOrderId)> = match &event {
+                EngineEvent::Account(barter::execution::AccountStreamEvent::Item(a)) => match &a.kind {
+                    barter_execution::AccountEventKind::OrderSnapshot(s) => Some((s.0.key.instrument, s.0.key.cid.clone())),
+                    barter_execution::AccountEventKind::OrderCancelled(c) => Some((c.key.instrument, c.key.cid.clone())),
+                    _ => None,
+                },
+                _ => None,
             };
+            let touched_by_event = |inst: InstrumentIndex, cid: &ClientOrderId| -> bool { reported.as_ref().is_some_and(|(i, c)| *i == inst && c == cid) };
             let count_same = |list: &[Req], r: &Req| list.iter().filter(|x| x.instrument() == r.instrument() && x.cid() == r.cid()).count();
             for r in &all_sent {
                 if count_same(&all_sent, r) > 1 {
@@ -394,7 +398,6 @@ impl Check for RequestDelivery {
         rep.class_if(cmd_kinds[2], "cmd_cancel_orders");
         rep.class_if(cmd_kinds[3], "cmd_close_positions");
         rep.nontrivial = (n_failed > 0 || n_refused > 0) && n_delivered > 0;
-        let _ = cid_of;
         rep
     }
 }
